@@ -26,6 +26,7 @@ META = ['"', '\\', '$', '`', ',', '\n', '\r', '\t', '>', '<', ' ', ':', 'n', 'u'
         ' ', '\U0001F600', "'", '0']
 POSITIONS = ['str', 'uri', 'refdis', 'xstr', 'gmeta', 'cmeta', 'list', 'dict', 'nested']
 POS_2_0 = ['str', 'uri', 'refdis', 'gmeta', 'cmeta']
+XSTR_TYPES = ['Foo', 'Hex', 'HEX', 'B64', 'Xb64', 'H', 'Hex2']
 
 
 def wrap(h, pos, s, i):
@@ -36,7 +37,8 @@ def wrap(h, pos, s, i):
     if pos == 'refdis':
         return h.Ref('r%d' % i, s, True)
     if pos == 'xstr':
-        return h.XStr('Foo', s)
+        # the type name rotates over case variants of the two binary encodings (only the exact lower-case hex / b64 are binary)
+        return h.XStr(XSTR_TYPES[(len(s) + sum(map(ord, s[:4]))) % len(XSTR_TYPES)], s)      # a function of the payload: alone or in a batch, the same value
     if pos == 'list':
         return ['a', s, 'z']
     if pos == 'dict':
